@@ -525,6 +525,26 @@ func genQueries(r *hx.Rng, d setDesc, iv []ivec, n int, per int, cells []fbox) [
 	return qs
 }
 
+// originQueries: queries aimed at the world origin: the point itself and points next to it, radii that reach
+// it only just, rays through it whose range ends before anything else, closest point from nearby.
+func originQueries() []qDesc {
+	o := [3]float64{0, 0, 0}
+	return []qDesc{
+		{T: "contain", P: o}, {T: "contain", P: [3]float64{0.25, 0, 0}},
+		{T: "within", P: o, D: 0}, {T: "within", P: [3]float64{-0.5, 0, 0}, D: 0.5}, {T: "within", P: [3]float64{0, 0.25, 0}, D: 1},
+		{T: "within", P: [3]float64{-1, -1, -1}, D: 1.75}, {T: "within", P: o, D: 100},
+		{T: "ray", P: [3]float64{0, -5, 0}, Dir: [3]float64{0, 1, 0}, Lo: 0, Hi: 1000},
+		{T: "ray", P: [3]float64{-3, 0, 0}, Dir: [3]float64{1, 0, 0}, Lo: 0, Hi: 3.5},
+		{T: "ray", P: [3]float64{-3, 0, 0}, Dir: [3]float64{1, 0, 0}, Lo: 0, Hi: 1000},
+		{T: "ray", P: [3]float64{-2, -2, -2}, Dir: [3]float64{1, 1, 1}, Lo: 0, Hi: 4.25},
+		{T: "ray", P: [3]float64{0, 0, 4}, Dir: [3]float64{0, negZero, -1}, Lo: -2.5, Hi: 1000},
+		{T: "trav", P: [3]float64{0, -5, 0}, Dir: [3]float64{0, 1, 0}, Lo: 0, Hi: 1000},
+		{T: "trav", P: [3]float64{-3, 0, 0}, Dir: [3]float64{1, 0, 0}, Lo: 0, Hi: 3.5},
+		{T: "closest", P: [3]float64{-0.25, 0, 0}}, {T: "closest", P: [3]float64{0, 0, 0.5}}, {T: "closest", P: o},
+		{T: "closest", P: [3]float64{0.75, 0.5, 0.5}},
+	}
+}
+
 func genSet(r *hx.Rng, big int) setDesc {
 	d := setDesc{Kind: hx.Pick(r, []string{"point", "point", "line", "tri", "tri", "box"})}
 	n := sizeOf(r, big)
@@ -554,7 +574,31 @@ func genSet(r *hx.Rng, big int) setDesc {
 	if d.Kind != "box" && r.Chance(1, 6) {
 		d.Attr = hx.Pick(r, []string{"Rest", "Normal", "Custom/1"}) // the tree over another attribute than Position
 	}
+	// element 0 of zero extent exactly at the world origin (point / zero-size box), the others pushed to one
+	// side of it (half of the time) or left around it; queries aimed at the origin are added
+	atOrigin := false
+	if n >= 2 && (d.Kind == "point" || d.Kind == "box") && r.Chance(1, 8) {
+		atOrigin = true
+		if r.Bool() {
+			ax, sg := r.Intn(3), hx.Pick(r, []float64{1, -1})
+			lo := math.Inf(1)
+			for _, v := range d.Verts {
+				lo = math.Min(lo, sg*v[ax])
+			}
+			for i := range d.Verts {
+				d.Verts[i][ax] += sg * (float64(r.Range(1, 3)) - lo)
+				iv[i][ax] = int(d.Verts[i][ax])
+			}
+		}
+		d.Verts[0], iv[0] = [3]float64{}, ivec{}
+		if d.Kind == "box" {
+			d.Verts[1], iv[1] = [3]float64{}, ivec{}
+		}
+	}
 	d.Queries = genQueries(r, d, iv, n, per, cellsOf(d))
+	if atOrigin {
+		d.Queries = append(d.Queries, originQueries()...)
+	}
 	return d
 }
 
@@ -660,6 +704,29 @@ func fixedSets() []setDesc {
 			{T: "within", P: [3]float64{0.75, 0.25, 0}, D: 1}, {T: "within", P: [3]float64{0.75, 0.25, 0}, D: 0.75},
 			{T: "within", P: [3]float64{0.25, 0.75, 0}, D: 1}, {T: "within", P: [3]float64{0.5, 0.5, 0.5}, D: 1},
 			{T: "within", P: [3]float64{0.75, 0.25, 0.25}, D: 0.25}, {T: "within", P: [3]float64{0.75, 0.25, 0}, D: 1.25}}})
+	}
+	// an element of zero extent exactly at the world origin (its box equals NewEmptyAABB()) as element 0 / first of
+	// its cell: all others on one side (every depth: the root cell must still contain it), or a lattice around it
+	// (depth >= 1: it is the first element of the (+,+,+) child cell); queries aimed at the origin
+	side := pts([3]float64{0, 0, 0}, [3]float64{2, 0, 0}, [3]float64{3, 1, 0}, [3]float64{4, 0, 2}, [3]float64{2, 2, 2}, [3]float64{5, 1, 1})
+	co := pts([3]float64{0, 0, 0}, [3]float64{0, 0, 0}, [3]float64{0, 0, 0}, [3]float64{4, 4, 4}, [3]float64{5, 4, 4}, [3]float64{4, 6, 5})
+	latO := pts([3]float64{0, 0, 0})
+	for _, v := range lat {
+		if v != [3]float64{0, 0, 0} {
+			latO = append(latO, v)
+		}
+	}
+	for _, depth := range []int{0, 1, 2, 5, -1} {
+		out = append(out, setDesc{Kind: "point", Verts: side, Depth: depth, Queries: originQueries()})
+		out = append(out, setDesc{Kind: "point", Verts: co, Depth: depth, Queries: originQueries()})
+		out = append(out, setDesc{Kind: "point", Verts: latO, Depth: depth, Queries: originQueries()})
+		// a zero-size box, a zero-length first segment, a triangle (0,0,0)x3 at the origin
+		out = append(out, setDesc{Kind: "box", Verts: pts([3]float64{0, 0, 0}, [3]float64{0, 0, 0}, [3]float64{2, 1, 1}, [3]float64{3, 2, 2}, [3]float64{4, 0, 0}, [3]float64{4, 3, 1}, [3]float64{2, 2, 2}, [3]float64{5, 5, 5}),
+			Idx: []int{0, 1, 2, 3, 4, 5, 6, 7}, Depth: depth, Queries: originQueries()})
+		out = append(out, setDesc{Kind: "line", Verts: pts([3]float64{0, 0, 0}, [3]float64{0, 0, 0}, [3]float64{3, 1, 0}, [3]float64{4, 1, 2}, [3]float64{2, 3, 2}),
+			Idx: []int{0, 1, 2, 3, 4, 2}, Depth: depth, Queries: originQueries()})
+		out = append(out, setDesc{Kind: "tri", Verts: pts([3]float64{0, 0, 0}, [3]float64{2, 0, 0}, [3]float64{4, 0, 0}, [3]float64{2, 3, 1}, [3]float64{5, 1, 1}, [3]float64{3, 1, 4}, [3]float64{3, 3, 3}),
+			Idx: []int{0, 0, 0, 1, 2, 3, 4, 5, 6}, Depth: depth, Queries: originQueries()})
 	}
 	// a strip with shared vertices
 	out = append(out, setDesc{Kind: "line", Verts: pts([3]float64{0, 0, 0}, [3]float64{4, 0, 0}, [3]float64{4, 4, 0}, [3]float64{0, 4, 4}, [3]float64{0, 0, 4}),
